@@ -259,7 +259,7 @@ var registry = []propertySpec{
 				Bounds: "husband born in 1800 and married in 1810/1816/1850/1900/1903 (by choice), days 1..28 symbolic, months Jan/Jun/Dec by choice; age at marriage at least 10 days away from 16 and 100 years"},
 			{Name: "VerifC20_Individual", Quick: tierSpec{Cases: 4}, Thorough: tierSpec{Cases: 4}, Sched: -1, Solver: "cvc5",
 				Bounds: "birth in 1800 and death in 1799/1800/1860/1900/1904 (by choice), days 1..28 symbolic, months by choice; extra unparsable dates / SEX lines by case"},
-			{Name: "VerifC20_EventOrder", Quick: tierSpec{Cases: 3}, Thorough: tierSpec{Cases: 3}, Sched: -1, Solver: "cvc5",
+			{Name: "VerifC20_EventOrder", Quick: tierSpec{Cases: 27}, Thorough: tierSpec{Cases: 27}, Sched: -1, Solver: "cvc5",
 				Bounds: "baptism, death and burial as exact days (day 1..28 symbolic, month Jan/Jun/Dec by choice, year 1850; death also 1851) in every relative order, with a valid, missing or unparsable birth"},
 			{Name: "VerifC20_Spouses", Quick: tierSpec{Cases: 16}, Thorough: tierSpec{Cases: 16}, Sched: -1,
 				Bounds: "all 4x4 combinations of husband / wife SEX values (M, F, missing, U)"},
